@@ -263,8 +263,14 @@ class Run:
                 else:
                     det = dict(next="Open", out={(257, False): 1})
             else:
-                det = dict(next=next(iter(poss0)), out={(257, False): 0}) if len(poss0) == 1 else None
+                # an invalid CER never opens the connection.  The statement does not say whether it is answered: silence and a
+                # rejection (a CEA with a Result-Code outside 2xxx, RFC 6733 5.3) are both accepted; C07 judges the identifiers and
+                # the origin of such an answer like those of any other (the request is "optionally answered")
+                det = dict(next=next(iter(poss0)), out={(257, False): "0-or-1-rejection"}) if len(poss0) == 1 else None
                 nxt = poss0
+                if poss0 in ({"Closed"}, {"Open"}):
+                    self.optional.append((257, hbh, e2e, self.generation))
+                    self.req_log.append((257, hbh, e2e, self.generation, True))
         elif e.startswith("cea"):
             kw = {}
             if e == "cea-wrong-host":
@@ -456,6 +462,13 @@ class Run:
         if det is not None:
             for (cmd, req), n in det["out"].items():
                 got = self.count(new, cmd, req)
+                if n == "0-or-1-rejection":
+                    ceas = [m for m in new if m["cmd"] == cmd and not m["flags"] & 0x80]
+                    codes = [int.from_bytes(x["data"], "big") for m in ceas for x in rc.find_avp(m["avps"], 268)]
+                    if got > 1 or any(2000 <= c < 3000 for c in codes) or len(codes) != got:
+                        self.viol("an invalid CER is not accepted", f"output/CEA/{next(iter(poss0))}/{e}/extra",
+                                  f"in {sorted(poss0)} on {e}: {got} CEA written with Result-Codes {codes}; at most one rejection is expected")
+                    continue
                 if got != n:
                     label = {257: "CE", 280: "DW", 282: "DP"}[cmd] + ("R" if req else "A")
                     self.viol(f"required base-protocol output", f"output/{label}/{next(iter(poss0)) if len(poss0) == 1 else 'any'}/{e}/{'missing' if got < n else 'extra'}",
